@@ -49,7 +49,8 @@ class EvalModel:
         return out
 
     def ctx_writers(self):
-        """local bodies that (transitively) insert into the context map"""
+        """the context-writing API: local bodies that (transitively) mutate the context map and
+        are not part of the evaluator recursion (do not reach exec)"""
         if hasattr(self, '_cw'):
             return self._cw
         prog = self.prog
@@ -60,36 +61,32 @@ class EvalModel:
                         'insert', 'remove', 'clear', 'entry', 'retain', 'extend', 'get_mut', 'drain', 'try_insert', 'remove_entry', 'insert_unique_unchecked'):
                     if 'context::ContextValue' in ' '.join(c.term['arg_tys']) or 'context::ContextValue' in c.term['dest']['ty']:
                         direct.add(b.id)
+        reach_exec = set()
         sat = set(direct)
         changed = True
         while changed:
             changed = False
             for bid, succ in prog.edges.items():
                 if bid not in sat and any(s in sat for s in succ):
-                    # only propagate through the context module's own API (bodies whose self is Context)
                     sat.add(bid)
                     changed = True
+        rex = {self.exec.id}
+        changed = True
+        while changed:
+            changed = False
+            for bid, succ in prog.edges.items():
+                if bid not in rex and any(s in rex for s in succ):
+                    rex.add(bid)
+                    changed = True
         self._cw_direct = direct
-        self._cw = sat
-        return sat
+        self._cw = sat - rex
+        return self._cw
 
     def ctx_writes(self, body):
         cw = self.ctx_writers()
-        if body.id in self._cw_direct:
+        if body.id in cw:
             return []
-        out = []
-        for c in body.live_calls:
-            ru = c.ruid
-            if ru in cw and ru != self.exec.id and ru not in [b.id for b in getattr(self, 'bodies', [])] and ru not in self._eval_ids_hint():
-                out.append(c)
-        return out
-
-    def _eval_ids_hint(self):
-        # bodies that evaluate children are not "context writes" themselves
-        if not hasattr(self, '_hint'):
-            self._hint = {bid for bid in self.reach
-                          if any(c.ruid == self.exec.id for c in self.prog.by_id[bid].live_calls)} | {self.exec.id}
-        return self._hint
+        return [c for c in body.live_calls if c.ruid in cw]
 
     # --- provenance
     def prov_of_operand(self, body, op, depth=0):
